@@ -146,7 +146,12 @@ impl HeaderPrefix {
                 wrapped += 2 * max_entries;
             }
 
-            insert_count + total_inserted - wrapped
+            // a count that cannot be reconstructed was not produced by a conformant encoder
+            (insert_count + total_inserted)
+                .checked_sub(wrapped)
+                .ok_or(ParseError::InvalidBase(
+                    (insert_count + total_inserted) as isize - wrapped as isize,
+                ))?
         };
 
         let base = if required == 0 {
